@@ -32,7 +32,7 @@ MAX_CONFIRM = 6     # liveness verdicts re-run per check run
 def write_mc_cfg(path, *, chans="Chans1", msgs="MsgsA12", init_a="{0, 14}", init_b="{0, 14}", mode="set",
                  budget=0, deviations="{}", invariants=None, properties=None, emit=False, fair=False,
                  max_rtx=3, win=2, constraint=None, props='{"C01", "C12", "C13"}', rwnd=9, delay_sack="FALSE",
-                 action_constraint=None):
+                 action_constraint=None, rtx_burst=9):
     inv = invariants if invariants is not None else ["TypeOK", "PrefixDelivery", "OneToOne", "OpenOnce",
                                                      "OpenBeforeMessage", "ConsecutiveTsn", "WindowRespected", "NewDataWithinWindow"]
     prop = properties if properties is not None else (["SetupIdempotent"] + (["EventuallyDelivered"] if fair else []))
@@ -48,6 +48,7 @@ CONSTANTS
   MaxRtx = {max_rtx}
   MaxT1 = 2
   Win = {win}
+  RtxBurst = {rtx_burst}
   Rwnd = {rwnd}
   DelaySack = {delay_sack}
   Deviations = {deviations}
